@@ -524,8 +524,27 @@ impl Run<'_> {
     fn wait_for(&mut self, mut want: Vec<Expect>) {
         let deadline = Instant::now() + WATCHDOG;
         while !want.is_empty() {
-            let ev = match self.next_ev(deadline) {
+            // wait in slices: a server thread that died (panicked) will never reach its checkpoint
+            let slice = (Instant::now() + Duration::from_millis(100)).min(deadline);
+            let ev = match self.next_ev(slice) {
                 Some(ev) => ev,
+                None if Instant::now() < deadline => {
+                    let dead = want.iter().find_map(|e| {
+                        let tid = match e {
+                            Expect::AMsgConn(_) | Expect::AMsgShutdown | Expect::ADispatched(..)
+                            | Expect::ALoop | Expect::AShutdownSent => self.a_tid,
+                            Expect::WLoop(w) | Expect::WMsgConn(w, _) | Expect::WMsgShutdown(w)
+                            | Expect::WDrained(w, _) => self.w_tid.get(*w as usize).copied().flatten(),
+                            _ => None,
+                        }?;
+                        (!std::path::Path::new(&format!("/proc/self/task/{tid}")).exists()).then_some(*e)
+                    });
+                    if let Some(e) = dead {
+                        self.diverge(format!("the server thread expected to reach {e:?} has exited (panic?)"));
+                        return;
+                    }
+                    continue;
+                }
                 None => {
                     self.diverge(format!("stall: still waiting for {want:?}"));
                     return;
@@ -905,6 +924,17 @@ impl Run<'_> {
         let deadline = Instant::now() + Duration::from_millis(GENEROUS_MS + 3000);
         loop {
             let closed = self.clients.iter().flatten().all(|c| c.closed);
+            if self.diverged.is_some() {
+                // a worker thread that is gone (exited or panicked) will not pass any checkpoint
+                for w in 0..self.w_final.len() {
+                    if !self.w_final[w]
+                        && let Some(tid) = self.w_tid[w]
+                        && !std::path::Path::new(&format!("/proc/self/task/{tid}")).exists()
+                    {
+                        self.w_final[w] = true;
+                    }
+                }
+            }
             if self.called_at.is_some()
                 && self.resolved_at.is_some()
                 && self.handle_resolved_at.is_some()
